@@ -3,8 +3,9 @@
 #
 #   ./selftest.sh            build offline against the contract tree named in Cargo.toml, run the
 #                            unit cross-checks (cargo test), run every history in histories/
-#                            (D*, ok_* must exit 0: their asserts describe the correct behaviour;
-#                            K* are recorded known findings and must still reproduce: exit 3),
+#                            (D*, ok_*, golden_state_* must exit 0: their asserts describe the
+#                            correct behaviour; K* are recorded known findings and must still
+#                            reproduce: exit 3),
 #                            then run the randomized search over the original and the new
 #                            profiles (must report NO-HIT).
 #   ./selftest.sh --pinned   additionally extract the pinned defective tree (PINNED_REV, default
@@ -33,7 +34,7 @@ if ! cargo build --offline 2> target/selftest/build.log; then
 fi
 note "PASS  build ($(( $(date +%s) - start )) s)"
 
-note "== unit cross-checks of the hand-written parsers against the semver / uuid crates and MockApi"
+note "== unit cross-checks: hand-written parsers vs the semver / uuid crates and MockApi; golden storage shapes (format.rs) vs the real types"
 if cargo test --offline > target/selftest/test.log 2>&1; then note "PASS  cargo test"; else tail -20 target/selftest/test.log; note "FAIL  cargo test"; fail=1; fi
 
 note "== histories on the current tree (expected exit 0; K* = known finding still reproduces, exit 3)"
@@ -61,11 +62,21 @@ for p in auth config admission match migration instantiate; do
   note "      $out"
   check "search --oracle all --seed 1 --iters 600 --profile $p" 0 $rc
 done
-for o in authorization config_change migration admission match_eligibility settlement queries attributes instantiate_coherence; do
+for o in authorization config_change migration admission match_eligibility settlement queries attributes instantiate_coherence storage_format; do
   out=$($BIN search --oracle $o --seed 2 --iters 400 --out target/selftest/hit-$o.json); rc=$?
   note "      $out"
   check "search --oracle $o --seed 2 --iters 400 (profile auto)" 0 $rc
 done
+
+note "== golden histories are hand-checkable: regenerating them from histories/make_golden.py gives the same files"
+if command -v python3 >/dev/null 2>&1; then
+  mkdir -p target/selftest/golden && cp histories/make_golden.py target/selftest/golden/ && python3 target/selftest/golden/make_golden.py >/dev/null
+  same=0
+  for v in 0.16.3 0.18.2 0.19.0; do cmp -s histories/golden_state_$v.json target/selftest/golden/golden_state_$v.json || same=1; done
+  check "golden_state_*.json equal their generator's output" 0 $same
+else
+  note "SKIP  python3 not available"
+fi
 
 if [ "${1:-}" = "--pinned" ]; then
   note "== pinned defective tree $PINNED_REV (expected: D* exit 3, ok_basic exit 0, search HIT)"
